@@ -22,7 +22,7 @@ def run(ctx):
     _hs.mc(ctx)
     res, tf = _hs.record(ctx)
     ctx.traces += _hs.validate(ctx, tf, relevant, strict_backoff=True)
-    ctx.require_actions('ev:Deliver', 'ev:TunSend', 'ev:Retry')
+    ctx.require_actions('ev:Deliver', 'ev:TunSend', 'ev:Retry', 'flush-interleave-prologue')
 
 
 META = {
